@@ -25,7 +25,7 @@ import pair as P
 
 PROP = 'C17'
 SSH_KEYGEN = shutil.which('ssh-keygen')
-SCRATCH = '/dev/shm/asyncssh-verif-c17'
+SCRATCH = '/dev/shm/asyncssh-verif-c17-%d' % os.getpid()       # unique per check run (workers are forked later)
 
 
 def K(n):
